@@ -21,11 +21,11 @@ ASSUMPTIONS = ["results are compared as multisets of locations: the statement sa
                "members whose attribute is absent or null take no part in max/min (inverted: they are among the others); "
                "records lacking the attribute take no part in unique/distinct; null values group together",
                "parent(0), negative n, empty / all-null collections under max/min and mixed-kind collections are not judged"]
-REACH = [("yamlpath/common/keywordsearches.py", 89, 240, "has_child"),
-         ("yamlpath/common/keywordsearches.py", 343, 400, "name"),
-         ("yamlpath/common/keywordsearches.py", 400, 812, "max/min"),
-         ("yamlpath/common/keywordsearches.py", 812, 900, "parent"),
-         ("yamlpath/common/keywordsearches.py", 925, 1230, "distinct/unique")]
+REACH = [("yamlpath/common/keywordsearches.py", "has_child,_has_concrete_child", "has_child"),
+         ("yamlpath/common/keywordsearches.py", "name", "name"),
+         ("yamlpath/common/keywordsearches.py", "max,min", "max/min"),
+         ("yamlpath/common/keywordsearches.py", "parent", "parent"),
+         ("yamlpath/common/keywordsearches.py", "distinct,unique,_track_seen_value", "distinct/unique")]
 SIZES = {"quick": 400000, "thorough": 4000000}
 REQUIRED_COUNTERS = ["minmax_checked", "unique_distinct_checked", "has_child_checked", "parent_checked", "name_checked"]
 
